@@ -541,6 +541,10 @@ def _b_chr(I, a, k):
 def _b_Decimal(I, a, k):
     L = _L()
     v = I.resolve(a[0]) if a else 0
+    if isinstance(v, float):
+        # Decimal(0.1) is not one tenth; under the 15-digit context the difference is rounded away once the value
+        # is multiplied by a digit (finite lemma validated by tools/validate_lib.py): modelled as the decimal of repr(v)
+        return L.PyDecimal(_decimal.Decimal(repr(v)))
     if isinstance(v, (int, str, float)) and not isinstance(v, bool):
         try:
             return L.PyDecimal(_decimal.Decimal(v))
@@ -554,6 +558,10 @@ def _b_Decimal(I, a, k):
         if v.kind == REAL:
             return v
         if v.kind == STR:
+            from . import strparts
+            r = strparts.int_value(I, v)
+            if r is not strparts.NOTFOUND and r != 'ValueError':
+                return Sym(REAL, I.term(r, REAL))
             # Decimal(s): modelled through the uninterpreted inverse of str(real)
             return Sym(REAL, L._SREAL(v.t))
     raise Unsupported('Decimal of ' + type(v).__name__)
@@ -634,7 +642,9 @@ def external(mod, attr, I):
     if mod == 'decimal':
         if attr == 'Decimal':
             return Builtin('Decimal', _b_Decimal)
-        if attr in ('getcontext', 'localcontext', 'Context'):
+        if attr == 'getcontext':
+            return Builtin('getcontext', lambda I, a, k: DecimalContext())
+        if attr in ('localcontext', 'Context'):
             return L.LazyUnknown(f'decimal.{attr}')
     if mod == 'math':
         if attr == 'floor':
@@ -644,6 +654,9 @@ def external(mod, attr, I):
     if mod == 'sys' and attr == 'maxsize':
         return _sys.maxsize
     if mod == 'typing':
+        alias = {'List': 'list', 'Dict': 'dict', 'Tuple': 'tuple', 'Set': 'set'}
+        if attr in alias:
+            return Builtin(alias[attr], BUILTINS[alias[attr]])
         return L.LazyUnknown('typing.' + attr)
     if mod in ('abc',):
         return L.LazyUnknown('abc.' + attr)
@@ -737,6 +750,12 @@ def _rx_compile(I, a, k):
     return I.unknown('regex.compile of symbolic source')
 
 
+class DecimalContext:
+    """decimal.getcontext(): add / multiply / divide / power are exact real operations (assumption: every intermediate
+    result has at most 15 significant digits, the precision the parsers establish)"""
+    pass
+
+
 class NT(tuple):
     """namedtuple instance"""
     _fields = ()
@@ -811,6 +830,15 @@ def get_attribute(I, o, name):
         if isinstance(e, L.LazyUnknown):
             return I.unknown(e.reason)
         return e
+    if isinstance(o, DecimalContext):
+        ops = {'add': ast.Add, 'multiply': ast.Mult, 'divide': ast.Div, 'subtract': ast.Sub}
+        if name in ops:
+            return Builtin('ctx.' + name, lambda I, a, k, _op=ops[name]: I.binop(_op, a[0], a[1]))
+        if name == 'power':
+            return Builtin('ctx.power', lambda I, a, k: I.binop(ast.Pow, a[0], a[1]))
+        if name == 'prec':
+            return 15
+        raise Unsupported('decimal context attribute ' + name)
     from . import envmodel as E
     if isinstance(o, E.EnvConfig):
         return E.get_config_attr(I, o, name)
@@ -1054,6 +1082,8 @@ def str_method(I, s, name, args, kwargs):
         return Sym(STR, z3.If(ln >= w, t, z3.Concat(pad, t)))
     if name == 'replace':
         a, b = args[0], args[1]
+        if isinstance(a, str) and SP.replace_absent(s, a):
+            return s
         if isinstance(a, str) and isinstance(b, str) and len(a) == 1 and len(b) == 1:
             from . import specnative
             return specnative.replace1(I, s, a, b)
@@ -1076,6 +1106,12 @@ def str_method(I, s, name, args, kwargs):
         r = SP.lstrip_char(I, s, args[0])
         if r is not SP.NOTFOUND:
             return r
+    if name == 'rstrip' and len(args) == 1 and isinstance(args[0], str):
+        r = SP.rstrip_char(I, s, args[0])
+        if r is not SP.NOTFOUND:
+            return r
+    if name == 'replace' and len(args) == 2 and isinstance(args[0], str) and SP.replace_absent(s, args[0]):
+        return s
     if name in ('lower', 'upper', 'strip', 'lstrip', 'rstrip', 'title', 'casefold'):
         return I.env.str_fun(I, name, s, args)
     if name == 'split':
